@@ -2,6 +2,9 @@ package props
 
 import (
 	"fmt"
+	"go/ast"
+	"go/token"
+	"go/types"
 
 	"golang.org/x/tools/go/ssa"
 
@@ -164,4 +167,145 @@ func c06Rewind(c *core.Check) {
 		}
 		r.Cond(ok, "css/parser.consumeBlocksContent | "+what, p.Pos(col.Pos()), "part of the rebuilt stream, in order", msg)
 	}
+}
+
+// c06BadURL: consume the remnants of a bad url (CSS Syntax §4.3.14): ")" ends the token unless it is escaped, and
+// the escape is any valid escape (a backslash not followed by a newline), which is skipped as a pair.
+func c06BadURL(c *core.Check) {
+	p := c.Prog
+	r := c.Rule("R7", "the remnants of a bad url: in the loop of consumeUrl that looks for the closing parenthesis, a backslash that starts a valid escape (next byte present and not a newline) is skipped together with the byte it escapes before the test for ')' — so that neither `\\)` nor the ')' after `\\\\` is misread", 2)
+	fn := p.Method("css/parser", "tokenizer", "consumeUrl")
+	if fn == nil {
+		r.Anchor("css/parser.(*tokenizer).consumeUrl")
+		return
+	}
+	byteCmp := func(v ssa.Value) (int64, token.Token, bool) {
+		b, ok := v.(*ssa.BinOp)
+		if !ok || (b.Op != token.EQL && b.Op != token.NEQ) {
+			return 0, 0, false
+		}
+		k, ok := core.ConstInt(b.Y)
+		if !ok {
+			return 0, 0, false
+		}
+		if bt, isB := b.X.Type().Underlying().(*types.Basic); !isB || bt.Kind() != types.Uint8 {
+			return 0, 0, false
+		}
+		return k, b.Op, true
+	}
+	found := false
+	for _, l := range core.Loops(fn) {
+		var paren, bslash *ssa.BinOp
+		assign := map[ssa.Value]bool{}
+		for b := range l.Blocks {
+			if len(b.Instrs) == 0 {
+				continue
+			}
+			ifi, ok := b.Instrs[len(b.Instrs)-1].(*ssa.If)
+			if !ok {
+				continue
+			}
+			for _, a := range core.ExpandBoolPhi(ifi.Cond) {
+				if k, op, ok := byteCmp(a); ok {
+					switch k {
+					case ')':
+						paren = a.(*ssa.BinOp)
+					case '\\':
+						bslash = a.(*ssa.BinOp)
+						assign[a] = op == token.EQL
+					case '\n':
+						assign[a] = op != token.EQL
+					}
+					continue
+				}
+				if bo, ok := a.(*ssa.BinOp); ok {
+					switch bo.Op {
+					case token.LSS, token.LEQ:
+						assign[a] = true // in range
+					case token.GEQ, token.GTR:
+						assign[a] = false
+					}
+				}
+			}
+		}
+		if paren == nil {
+			continue
+		}
+		// the loop that ends at ')' and is entered from the bad-url label: it must not be the main loop (which builds the value)
+		exits := false
+		pb := paren.Block()
+		for _, s := range pb.Succs {
+			if !l.Blocks[s] || !l.Blocks[firstNonTrivial(s)] {
+				exits = true
+			}
+		}
+		_ = exits
+		if bslash == nil {
+			// the main loop of the url also tests ')' and handles the backslash elsewhere (a switch): only loops without
+			// any backslash handling are reported when they are reached from the bad-url label
+			if loopAfterLabel(p, fn, l, "badURL") {
+				found = true
+				r.Fail("css/parser.consumeUrl | bad-url loop", p.Pos(paren.Pos()), "the loop looking for the end of a bad url does not treat the backslash: an escaped ')' ends the token")
+			}
+			continue
+		}
+		if !loopAfterLabel(p, fn, l, "badURL") {
+			continue
+		}
+		found = true
+		delete(assign, paren)
+		reach := core.ForwardReach(l.Header, assign, func(b *ssa.BasicBlock) bool { return !l.Blocks[b] })
+		r.Cond(!reach[paren.Block()] || paren.Block() == l.Header, "css/parser.consumeUrl | a valid escape is skipped before the test for ')'", p.Pos(bslash.Pos()), "the ')' test is not reached in an iteration that starts on a valid escape", "an iteration that starts on a backslash followed by a byte other than a newline still tests for ')' (or skips a single byte): the escaped byte can end the token")
+		// the skip is two bytes
+		two := false
+		for b := range l.Blocks {
+			if !reach[b] {
+				continue
+			}
+			for _, in := range b.Instrs {
+				if bo, ok := in.(*ssa.BinOp); ok && bo.Op == token.ADD {
+					if k, isK := core.ConstInt(bo.Y); isK && k == 2 {
+						two = true
+					}
+				}
+			}
+		}
+		r.Cond(two, "css/parser.consumeUrl | the escape and the escaped byte are skipped together", p.Pos(bslash.Pos()), "position advanced by 2", "the iteration that starts on a valid escape does not advance by two bytes")
+	}
+	if !found {
+		r.Fail("css/parser.consumeUrl | bad-url loop", p.Pos(fn.Pos()), "no loop after the bad-url label looks for the closing parenthesis byte by byte with escape handling: the end of a bad url is not found as CSS Syntax §4.3.14 describes")
+	}
+}
+
+func firstNonTrivial(b *ssa.BasicBlock) *ssa.BasicBlock { return b }
+
+// loopAfterLabel: the loop's header is at or after the labelled statement in the source.
+func loopAfterLabel(p *core.Prog, fn *ssa.Function, l *core.Loop, label string) bool {
+	body := p.Body(fn)
+	if body == nil {
+		return false
+	}
+	var lpos token.Pos
+	ast.Inspect(body, func(n ast.Node) bool {
+		if ls, ok := n.(*ast.LabeledStmt); ok && ls.Label.Name == label {
+			lpos = ls.Pos()
+		}
+		return true
+	})
+	if !lpos.IsValid() {
+		return false
+	}
+	for _, in := range l.Header.Instrs {
+		if in.Pos().IsValid() {
+			return in.Pos() >= lpos
+		}
+	}
+	for b := range l.Blocks {
+		for _, in := range b.Instrs {
+			if in.Pos().IsValid() && in.Pos() < lpos {
+				return false
+			}
+		}
+	}
+	return true
 }
